@@ -769,22 +769,6 @@ def gen_structured_file_case(rng, fmt, n3, d3):
             "origin": origin, "spacing": spacing, "ordinates": ords, "coords": coords, "pf": pf, "cf": cf}
 
 
-def pvtr_class(case):
-    """class predicates of the two PVTRReader._make_structured_mesh findings (None = outside both):
-    F14: a meshed direction that is not at its own position among the meshed directions (a flat direction
-         precedes it) is split into more than one piece -> wrong piece consulted / IndexError / ValueError;
-    F15: a flat direction whose single ordinate is not 0.0 -> the merged grid sits at 0.0"""
-    if case["fmt"] != "vtr":
-        return None
-    n3, d3 = case["n3"], case["d3"]
-    meshed = [k for k in range(3) if n3[k] > 0]
-    if any(meshed.index(k) != k and len(d3[k]) > 1 for k in meshed):
-        return "F14"
-    if any(n3[k] == 0 and float(case["ordinates"][k][0]) != 0.0 for k in range(3)):
-        return "F15"
-    return None
-
-
 def eval_structured_file(ctx, cases, tmpdir):
     from fieldcompare.io import read_field_data
     lines, meta = [], []
@@ -817,13 +801,11 @@ def eval_structured_file(ctx, cases, tmpdir):
                  nontrivial=npieces > 1, tags=tags,
                  sample={"fmt": case["fmt"], "n3": case["n3"], "d3": case["d3"], "order": case["order"],
                          "equal": (pc == sc) if err is None else err})
-        cls = pvtr_class(case)
+        cls = None   # the former PVTR findings F16/F17 are fixed (444374c): such cases are ordinary cases
         if err is not None:
             ctx.violation(case, "exception " + err, "content of the whole file", cls=cls,
                           what="reading the parallel structured file raised")
             continue
-        if cls is not None and not fields_equal:
-            cls = None     # the known PVTR defects concern the coordinates only, never the field values
         if pc != sc:
             ctx.violation(case, diff_summary(pc, sc), "content and dtypes of the whole file", cls=cls,
                           what="parallel structured file differs from the whole file" +
@@ -838,7 +820,7 @@ def eval_structured_file(ctx, cases, tmpdir):
                          " ".join(" ".join([str(len(v))] + [str(x) for x in v]) for v in ids[kind]))
             meta.append((case, kind))
         if case["fmt"] == "vtr":
-            # model of PVTRReader._make_structured_mesh (reproduces findings F14/F15): ordinates of the merged grid
+            # model of PVTRReader._make_structured_mesh: ordinates of the merged grid
             toks = []
             for b, e in ids["blocks"]:
                 for k in range(3):
